@@ -72,7 +72,13 @@ def run(ctx):
                                 i += 1
     ctx.exhaustive["one alarm: trigger x related x repeat x duration x start x component x provider"] = True
     rng = ctx.rng
-    while ctx.time_left():
+    # the multi-alarm scenarios are the only place where alarms of one component can influence each other (shared anchors, memoised triggers):
+    # every worker runs a floor of them even when a loaded machine let the sweep above use up the time budget
+    floor = max(200, 4000 // max(1, ctx.nshards))
+    k = 0
+    while ctx.time_left() or k < floor:
+        k += 1
+        ctx.count("multi-alarm-scenarios")
         start = rng.choice(STARTS)
         ctx.check((rng.choice(("api", "parsed", "direct")), rng.choice(("zoneinfo", "pytz")), rng.choice(("VEVENT", "VTODO")), start,
                    gen_end(rng, start), tuple(gen_alarm(rng) for _ in range(rng.randrange(0, 5)))), "random")
@@ -294,7 +300,7 @@ def classify(case, kind, observed, expected):
 def inconclusive(m, tier):
     c = m["counters"]
     out = []
-    for k in ("times-compared", "with-repeats", "incomplete-reported"):
+    for k in ("times-compared", "with-repeats", "incomplete-reported", "multi-alarm-scenarios"):
         if not c.get(k):
             out.append(f"monitor counter {k} is zero")
     return out
